@@ -100,7 +100,14 @@ impl PayloadSet {
         }
         for (customer, providers) in &self.aspas {
             if other.aspas.get(customer) != Some(providers) {
-                res.push(format!("aspa AS{customer} {providers:?}"));
+                if providers.len() > 12 {
+                    res.push(format!(
+                        "aspa AS{customer} ({} providers)", providers.len()
+                    ));
+                }
+                else {
+                    res.push(format!("aspa AS{customer} {providers:?}"));
+                }
             }
         }
         res
